@@ -383,7 +383,7 @@ HP_SETTINGS = ["", "0,1,0,0", "1,2,64,1", "0,1,17,1", "8,8,100,0", "3,3,500,0"] 
 DHP_SETTINGS = ["", "4", "64"]
 
 
-WATCHDOG_S = 60        # a whole sequence file takes a few seconds; a hang (e.g. a cycle in a list) is killed
+WATCHDOG_S = 90        # a whole sequence file takes a few seconds; a hang (e.g. a cycle in a list) is killed
 WATCHDOG_MIN_S = 15     # one sequence during minimisation
 
 
@@ -493,10 +493,10 @@ class Runner:
 
     def minimise(self, v, ops, hp, dhp):
         """drop operations while some mismatch persists; -> (ops, mismatch)"""
-        deadline = time.time() + 150
+        deadline = time.time() + 60
         def bad(cand):
             self.n += 1
-            mm, _ = self.check(v, [("m", cand, {})], "min%d" % (self.n % 4), hp, dhp, timeout=WATCHDOG_MIN_S)
+            mm, _ = self.check(v, [("m", cand, {})], "min", hp, dhp, timeout=WATCHDOG_MIN_S)
             return mm
         cur = list(ops)
         mm = bad(cur)
@@ -657,12 +657,18 @@ def run(ctx):
         if family(m[0]) not in seen:
             seen.add(family(m[0])); chosen.append(m)
     ctx.max_per_what = 1
-    for v, seqs, hp, dhp, mm in chosen[:10]:
-        sid, idx, el, ol = mm
-        ops = next((s[1] for s in seqs if s[0] == sid), [])
+
+    def minimise_one(m):
+        v, seqs, hp, dhp, mm = m
+        ops = next((s[1] for s in seqs if s[0] == mm[0]), [])
         mops, mm2 = runner.minimise(v, ops, hp, dhp)
         if mm2 is None:
             mops, mm2 = ops, mm
+        return v, ops, hp, dhp, mops, mm2
+
+    with ThreadPoolExecutor(max_workers=max(2, vcheck.NCPU // 2)) as ex:
+        minimised = list(ex.map(minimise_one, chosen[:10]))
+    for v, ops, hp, dhp, mops, mm2 in minimised:
         what = "%s: sequential API behaviour differs from the specification LV.Spec.ApiSpec" % v["name"]
         note = ""
         if "Cuckoo" in v["name"]:
